@@ -48,13 +48,30 @@ def small_screen(seed, observed_frac=0.5):
     return rs
 
 
+# operations that take a generator but (on the current tree) never draw from it
+DETERMINISTIC = {"retro:mergemin", "retro:mergetb", "retro:npl", "select:policy", "cli:select_next_plate"}
+
+
 def build_ops(tmp, rnd):
     """name -> (callable(seed) -> output digest, input digest, known-finding key or None)"""
     ops = {}
     # generators / smoothers / cover / hold-outs
     for name, params in (("seg", (3,)), ("pair", (1, 0)), ("perm", (0,)), ("fixed", (2,)), ("optimal", ()), ("mergemin", (3,)),
                          ("mergetb", (1,)), ("npl", (1,)), ("ensemble", (3, 1, 1))):
-        rs = small_screen(rnd.randrange(10 ** 6))
+        # an input on which the operation actually consumes randomness (its output moves with the seed), so a generator that is
+        # silently replaced is visible; the purely deterministic merge smoothers keep the first candidate
+        rs = None
+        for attempt in range(2 if "retro:" + name in DETERMINISTIC else 40):
+            cand = small_screen(rnd.randrange(10 ** 6)) if attempt < 5 else random_rscreen(random.Random(rnd.randrange(10 ** 6)), 24, 2, 5, p_obs=0.2, single=0.3, one_sample_per_plate=True)
+            rs = rs or cand
+            outs = set()
+            for sd in (1, 2, 3, 4):
+                obj = OPS[name](params)
+                st, o = outcome(obj.generate_plates if name in ("seg", "pair", "perm") else obj.smooth_plates, cand.screen(), np.random.default_rng(sd))
+                outs.add(scr_digest(o) if st == "ok" else "raised")
+            if len(outs) > 1 and "raised" not in outs:
+                rs = cand
+                break
         scr0 = rs.screen()
 
         def f(seed, name=name, params=params, rs=rs):
@@ -278,8 +295,9 @@ def run(ctx):
             ctx.violation("%s" % clause, {"kind": "across-processes", "clause": clause})
         ctx.extra["operations"] = sorted(ops)
         ctx.extra["output_changes_with_seed"] = changed
-        if not any(changed.values()):
-            raise tlc.TLCError("vacuity guard: no operation's output ever changed with the seed")
+        inert = sorted(n for n, c in changed.items() if not c and n not in DETERMINISTIC)
+        if inert:
+            raise tlc.TLCError("vacuity guard: the output of %s never changed with the seed, its randomness was not exercised" % inert)
         ctx.sample({"operation": meta[0][0], "events": traces[0]["events"]})
     finally:
         np.random.set_state(saved)
